@@ -270,16 +270,16 @@ type Spec struct {
 
 // Loop is a running system.
 type Loop struct {
-	Spec     Spec
-	dir      string
-	bin      string
-	farm     *farm
-	shards   []*rshard
-	coord    *exec.Cmd
-	coordOut *lockedBuf
-	coordAPI string
+	Spec      Spec
+	dir       string
+	bin       string
+	farm      *farm
+	shards    []*rshard
+	coord     *exec.Cmd
+	coordOut  *lockedBuf
+	coordAPI  string
 	coordDone chan error
-	targets  map[int]bool // currently configured target ids
+	targets   map[int]bool // currently configured target ids
 }
 
 func (l *Loop) writeConfig() error {
